@@ -18,6 +18,7 @@ META = {
     'outside': ['convergence of frequencies for large sample counts (law of large numbers on top of the exact conditional)', 'plotting', 'rounding'],
     'assumptions': ['state is right-orthonormal (documented precondition) for the identification of the identity-environment marginal with the Born marginal',
                     'conditional denominators are non-zero'],
+    'tv_all': ['large_sample'],
     'tv_per_scenario': {'quick': 1, 'thorough': 1},
 }
 
